@@ -76,12 +76,19 @@ class ValidationLogAdapter(GaugeAdapter):
             else:
                 match = self.re_actors.match(line)
                 if match:
+                    try:
+                        actors = int(match.group(1))
+                        messages = int(match.group(2))
+                        promises = int(match.group(3))
+                    except ValueError as err:
+                        # int() refuses numerals beyond the interpreter's digit limit
+                        raise OutputNotParseable(data) from err
                     measure1 = Measurement(invocation, iteration,
-                                           int(match.group(1)), 'count', run_id, 'Actors')
+                                           actors, 'count', run_id, 'Actors')
                     measure2 = Measurement(invocation, iteration,
-                                           int(match.group(2)), 'count', run_id, 'Messages')
+                                           messages, 'count', run_id, 'Messages')
                     measure3 = Measurement(invocation, iteration,
-                                           int(match.group(3)), 'count', run_id, 'Promises')
+                                           promises, 'count', run_id, 'Promises')
                     measure4 = Measurement(invocation, iteration,
                                            0, 'ms', run_id, 'total')
                     current.add_measurement(measure1)
